@@ -87,7 +87,7 @@ def lpm_case(cfg, chooser):
 def api_case(cfg, chooser):
     common.gc_point()
     fn = make_fn(cfg['fm'], cfg['fr'], cfg['fcls'])
-    r = sched.ApiLpmRun(cfg['via'], cfg['w'], cfg['b'], cfg['items'], fn, cfg['stop'], chooser, cfg['with_items']).run()
+    r = sched.ApiLpmRun(cfg['via'], cfg['w'], cfg['b'], cfg['items'], fn, cfg['stop'], chooser, cfg['with_items'], cfg.get('view')).run()
     return {'proto': 'api', 'cfg': cfg, 'run': r}
 
 
@@ -271,7 +271,8 @@ def run(rep, prop, which):
         cfg = {'via': rng.choice(['parmap', 'parmap', 'prefetch', 'batchmap']), 'w': w, 'b': w + rng.choice([0, 0, 1, 2]),
                'items': [rng.randint(0, 9) for _ in range(n)], 'ending': None,
                'fm': rng.choice([0, 0, 0, 3]), 'fr': rng.randrange(3), 'fcls': 'UserA',
-               'stop': rng.choice([None, None, 1, 2, 3, n]), 'with_items': rng.random() < 0.5}
+               'stop': rng.choice([None, None, 1, 2, 3, n]), 'with_items': rng.random() < 0.5,
+               'view': rng.choice([None, None, 'copy', 'freeze'])}
         if cfg['via'] == 'prefetch' and w == 1:
             cfg['w'], cfg['b'] = 2, 2 + rng.choice([0, 1])
         api_cases.append(api_case(cfg, sched.RandomChooser(rng.randrange(1 << 30))))
